@@ -94,10 +94,10 @@ TFetched == /\ Is("fetched") /\ pc = "open" /\ E.h = cur
             /\ ToSet(E.open) = open'                                      \* C17: logged open set
             /\ blk' = E.hash
             /\ pc' = IF sc.verify THEN "verify" ELSE "deliver"
-            \* C17: the real descriptor count of the process moves with the open set (the other descriptors are a constant)
-            /\ (Has(E, "fds") /\ aux.other >= 0) => E.fds - Len(E.open) = aux.other
-            /\ aux' = [aux EXCEPT !.prev = IF Has(E, "prev") THEN E.prev ELSE "",
-                                  !.other = IF Has(E, "fds") THEN E.fds - Len(E.open) ELSE @]
+            \* C17: the descriptors the process really holds on blk files (counted from /proc/self/fd) are exactly the open set -
+            \* no second handle, nothing reopened behind the bookkeeping
+            /\ Has(E, "blkfds") => E.blkfds = Len(E.open)
+            /\ aux' = [aux EXCEPT !.prev = IF Has(E, "prev") THEN E.prev ELSE ""]
             /\ UNCHANGED <<sc, scan, seen, lastAt, idx, fileMaxH, maxH, cur, delivered, tmp, fin, rows, exit, errH>>
 \* Open or SeekRead failing: reported with the height
 TReadErr == /\ (Is("read_err") \/ Is("nofile")) /\ pc = "open" /\ E.h = cur /\ Fail(cur) /\ UNCHANGED aux
